@@ -11,24 +11,43 @@
    per_link_fifo / per_sender_fifo (the send sequence of a worker to a target IS arrival log ++
    command queue ++ event queue, as lists), no_message_dropped (a DeliverMessage is never handled
    for a process that does not exist).
+   Also PROVED for every schedule and every oracle (phase 3):
+     scheduler_well_formed : in every reachable state the executor sets of every worker are well
+                            formed (run queue duplicate-free, `spawning` / `selecting` / queue pairwise
+                            disjoint and naming existing unfinished processes) and every process lives
+                            on the worker the router names.
+     spawner_gets_pid     : the GLOBAL invariant: for every process c,
+                            #workers with c in `spawning` = #SpawnAction(c) queued + #NotifySpawn(c,_)
+                            queued <= 1, and a queued NotifySpawn sits in the queue of the worker
+                            that holds the spawner (the Spawn instruction adds c to `spawning` and
+                            emits the SpawnAction in one atomic slice, so "Spawn action pending" is
+                            not a separate state of the model).
+     no_lost_wakeup, three of the four clauses of Inv_parked (DESIGN.md §5 C04), each as an invariant
+     over all schedules:
+       awaited_completion_never_unseen : no process in `awaited` has a result between steps;
+       no_timeout_due_at_last_check    : after every Worker::step at clock `now` no parked process
+                                         has a timeout elapsed at `now` (for slices that do not
+                                         park with a timeout already due: `time_honest`, C05);
+       parked_has_no_unseen_message    : a process parked in an evaluated select has every receive
+                                         cursor at the end of its mailbox (for slices that park
+                                         honestly: `honest_run`, the select machine of C05).
    NOT PROVED (partial; full statements kept here):
      arrival = mailbox    : that p_arrived of process t IS the arrival log of its worker restricted
-                            to t (needs "a process record is never replaced"). Proved: no message is
-                            ever dropped (no_message_dropped) and the CDeliver handler appends to the
-                            mailbox of an existing process (wakeup_on_message).
-     spawner_gets_pid     : the GLOBAL invariant form (c in `spawning` iff exactly one of {SpawnAction
-                            queued, NotifySpawn queued}) over whole schedules. Proved instead, for
-                            every handler and every oracle: a process leaves `spawning` only through
-                            its NotifySpawn (F71 — a result-less UpdateAwaitResults also did — is
-                            repaired; its schedule is a regression witness below), the executor step
-                            never removes it, and the environment answers every SpawnAction with
-                            exactly one NotifySpawn carrying a fresh pid.
-     no_lost_wakeup       : the GLOBAL invariant Inv_parked (DESIGN.md §5 C04) and its corollary
-                            quiescent_no_ready. Proved instead: every wake-up source re-queues a
-                            parked select (message, awaited result, elapsed timeout); the
-                            implementation-level quiescence oracle + wake-up probe of qv_sim check the
-                            global statement on every explored run. *)
-From Quiver Require Import sys.Proto sys.ProtoMsg sys.ProtoFifo sys.ProtoDeliver sys.ProtoFail sys.ProtoWake sys.ProtoExamples.
+                            to t (with scheduler_well_formed "a process record is never replaced" is
+                            now available; the pass over the worker operations is not written).
+                            Proved: no message is ever dropped (no_message_dropped) and the CDeliver
+                            handler appends to the mailbox of an existing process (wakeup_on_message).
+     no_lost_wakeup_partial : the fourth clause of Inv_parked — "p in selecting, p awaits t, t has
+                            a result  ->  the answer is in flight (ProcessResults event, pending_awaits
+                            entry or UpdateAwaitResults command)" — and with it the corollary
+                            quiescent_no_ready (all queues empty -> no parked process has a ready
+                            source). The await handshake goes through five hops with stale and
+                            overwritten pending_awaits entries (F8/F72 live there); not closed.
+                            Proved: every hop wakes (wakeup_on_result, with the awaiting-key
+                            premise); the implementation-level quiescence oracle + wake-up probe of
+                            qv_sim check the global statement on every explored run. *)
+From Quiver Require Import sys.Proto sys.ProtoMsg sys.ProtoFifo sys.ProtoDeliver sys.ProtoFail sys.ProtoWake sys.ProtoExamples
+  sys.ProtoWf sys.ProtoParked sys.ProtoSpawnInv.
 
 (* every stamped message that was sent is — counted with multiplicity — in exactly one of: the
    arrival log of a worker (its DeliverMessage was handled), a command queue (DeliverMessage in
@@ -167,3 +186,58 @@ Theorem C04_nonvacuous :
     total (g_sent x1) (s_nodes s) = 1 /\ total (g_sent x2) (s_nodes s) = 1 /\ total (g_sent x3) (s_nodes s) = 1.
 Proof. exact fanin_midflight. Qed.
 Print Assumptions C04_nonvacuous.
+
+(* ---- phase 3: global invariants over every schedule and every oracle *)
+Theorem C04_scheduler_well_formed : forall nw sigma s,
+  run (init nw) sigma = Good s ->
+  forall i nd, nth_error (s_nodes s) i = Some nd ->
+    SW (n_w nd) /\ (forall p, has p (n_w nd) -> alookup p (e_router (s_env s)) = Some i).
+Proof. exact scheduler_well_formed. Qed.
+Print Assumptions C04_scheduler_well_formed.
+
+Theorem C04_spawner_gets_pid : forall nw sigma s,
+  run (init nw) sigma = Good s ->
+  forall c,
+    spawn_pending s c <= 1 /\
+    (in_spawning s c <-> spawn_pending s c = 1) /\
+    (forall i nd, nth_error (s_nodes s) i = Some nd -> 1 <= nnc c (n_cmd nd) -> mem c (w_spawning (n_w nd)) = true).
+Proof. exact spawner_gets_pid_global. Qed.
+Print Assumptions C04_spawner_gets_pid.
+
+Theorem C04_spawner_states_reachable :
+  (exists s, run (init 2) [X (XStart false); W 0 None (orc (Some 0) (d_act_ ASpawn))] = Good s /\
+     in_spawning s 0 /\ total (g_se 0) (s_nodes s) = 1 /\ total (g_nc 0) (s_nodes s) = 0) /\
+  (exists s, run (init 2) [X (XStart false); W 0 None (orc (Some 0) (d_act_ ASpawn)); E []] = Good s /\
+     in_spawning s 0 /\ total (g_se 0) (s_nodes s) = 0 /\ total (g_nc 0) (s_nodes s) = 1).
+Proof. exact (conj spawn_evt_pending spawn_notif_pending). Qed.
+Print Assumptions C04_spawner_states_reachable.
+
+Theorem C04_awaited_completion_never_unseen : forall nw sigma s,
+  run (init nw) sigma = Good s ->
+  forall i nd t, nth_error (s_nodes s) i = Some nd -> In t (w_awaited (n_w nd)) -> result_of (n_w nd) t = None.
+Proof. exact awaited_completion_never_unseen. Qed.
+Print Assumptions C04_awaited_completion_never_unseen.
+
+Theorem C04_no_timeout_due_at_last_check : forall nw sigma s i k o s',
+  run (init nw) sigma = Good s -> sys_step s (W i k o) = Good s' -> time_honest (s_clock s) (o_did o) ->
+  forall nd' p, nth_error (s_nodes s') i = Some nd' -> mem p (w_selecting (n_w nd')) = true ->
+    timed_out (s_clock s) (n_w nd') p = false.
+Proof. exact no_timeout_due_at_last_check. Qed.
+Print Assumptions C04_no_timeout_due_at_last_check.
+
+Theorem C04_parked_has_no_unseen_message : forall sigma nw s,
+  honest_run (init nw) sigma -> run (init nw) sigma = Good s ->
+  forall i nd p pr sl, nth_error (s_nodes s) i = Some nd ->
+    mem p (w_selecting (n_w nd)) = true -> alookup p (w_procs (n_w nd)) = Some pr ->
+    p_sel pr = Some sl -> sl_start sl <> None ->
+    Forall (fun c => c = length (p_mail pr)) (sl_cursors sl).
+Proof. exact parked_has_no_unseen_message. Qed.
+Print Assumptions C04_parked_has_no_unseen_message.
+
+Theorem C04_parked_premises_nonvacuous : exists s nd pr,
+  honest_run (init 1) park_schedule /\ run (init 1) park_schedule = Good s /\
+  nth_error (s_nodes s) 0 = Some nd /\ mem 0 (w_selecting (n_w nd)) = true /\
+  alookup 0 (w_procs (n_w nd)) = Some pr /\ p_sel pr = Some parked_sel /\ sl_start parked_sel <> None /\
+  time_honest 0 {| d_taken := []; d_sel := Some parked_sel; d_forget := []; d_act := None; d_park := true; d_fin := None; d_heapy := false |}.
+Proof. exact parked_premises_hold. Qed.
+Print Assumptions C04_parked_premises_nonvacuous.
